@@ -13,6 +13,12 @@ ASSUME = ("Trusted base: g++ 12.2 / clang++ 14 (front end = interpreter of the t
           "vf/model + harness/*.hh, which contains no Au code. ")
 
 CHECKS = {
+    "C17": dict(level="exploration", technique="exhaustive enumeration of duration types x counts and of ordered duration pairs x value squares vs std::chrono itself and exact 128-bit arithmetic",
+                text="44 duration types (4 reps x 11 periods) plus the named typedefs: as_quantity's rep/unit (unit ratio read out and compared with the exact "
+                     "Period), implicit and as_chrono_duration round trips over all 16-bit counts and boundary windows (all 2^32 counts for 32-bit reps in thorough); "
+                     "all 1936 ordered pairs x 8 operators in both argument orders on the 8-bit value square against the same operation inside chrono whenever a "
+                     "128-bit oracle says chrono does not overflow; is_convertible<duration, Quantity> must equal that of the corresponding quantity for 50x32 targets.",
+                ref="DESIGN.md §6 C17"),
     "C16": dict(level="exploration", technique="exhaustive enumeration of a constant x target-unit x type grid through the C++ front end vs exact ratio arithmetic",
                 text="The 9 library constants (units checked against their SI definitions) and 12 generated constants are converted to same-dimension "
                      "target units whose ratio straddles every type's limits, for all 11 arithmetic types: can_store_value_in is read out, as<T>/in<T>/"
